@@ -593,6 +593,7 @@ fn sweep_asblocks(sw: &mut Sweep, b: &AsBlocks, fx: &Fixed) {
     sw.dbg(b);
     sw.json(b);
     sw.enc(b.encode_ref());
+    sw.enc(b.clone().encode());
     sw.see(b.contains_asn(Asn::from_u32(0)));
     sw.see(b.contains_asn(Asn::from_u32(64512)));
     sw.see(b.contains_asn(Asn::from_u32(u32::MAX)));
@@ -615,6 +616,10 @@ fn sweep_asres(sw: &mut Sweep, r: &AsResources, fx: &Fixed) {
     sw.show(r);
     sw.dbg(r);
     sw.enc(r.encode_ref());
+    sw.enc(r.clone().encode());
+    for oc in [Overclaim::Refuse, Overclaim::Trim] {
+        sw.enc(r.encode_extension(oc));
+    }
     if let Ok(b) = r.to_blocks() {
         sweep_asblocks(sw, &b, fx);
     }
@@ -696,7 +701,9 @@ fn sweep_ipblocks(sw: &mut Sweep, b: &IpBlocks, v4: bool, fx: &Fixed) {
     }
     sw.dbg(b);
     sw.enc(b.encode_ref());
+    sw.enc(b.clone().encode());
     sw.enc(b.encode_family(if v4 { AddressFamily::Ipv4 } else { AddressFamily::Ipv6 }));
+    sw.enc(if v4 { AddressFamily::Ipv4 } else { AddressFamily::Ipv6 }.encode());
     sw.see(b.contains(b));
     sw.see(b.contains(iss));
     sw.see(iss.contains(b));
@@ -712,7 +719,16 @@ fn sweep_ipres(sw: &mut Sweep, r: &IpResources, v4: bool, fx: &Fixed) {
     sw.see(r.is_present());
     sw.dbg(r);
     sw.enc(r.encode_ref());
+    sw.enc(r.clone().encode());
     sw.enc(r.encode_family(if v4 { AddressFamily::Ipv4 } else { AddressFamily::Ipv6 }));
+    // the extension encoder takes both families; the other one is absent here
+    let none = IpResources::missing();
+    for oc in [Overclaim::Refuse, Overclaim::Trim] {
+        let (a, b) = if v4 { (r, &none) } else { (&none, r) };
+        if let Some(ext) = IpResources::encode_extension(oc, a, b) {
+            sw.enc(ext);
+        }
+    }
     if let Ok(b) = r.to_blocks() {
         sweep_ipblocks(sw, &b, v4, fx);
     }
@@ -806,9 +822,21 @@ fn sweep_cert(sw: &mut Sweep, c: &Cert, o: &Opts, deep: bool) {
             }
         }
     }
-    // re-encoding last: a panic in here must not hide one in validation
+    // re-encoding last: a panic in here must not hide one in validation.
+    // `encode_ref` / `to_captured` of the certificate re-use the signed
+    // octets as they were captured; the to-be-signed part and the resource
+    // extensions are also written *from their decoded fields*.
     sw.enc(c.encode_ref());
     sw.see(c.to_captured().len());
+    {
+        let tbs: &rpki::repository::cert::TbsCert = c.as_ref();
+        sw.enc(tbs.encode_ref());
+        for oc in [Overclaim::Refuse, Overclaim::Trim] {
+            if let Some(ext) = IpResources::encode_extension(oc, c.v4_resources(), c.v6_resources()) {
+                sw.enc(ext);
+            }
+        }
+    }
     if deep {
         sw.json(c);
     }
@@ -873,6 +901,7 @@ fn sweep_crl(sw: &mut Sweep, c: &Crl, o: &Opts) {
     sw.dbg(c);
     sw.json(c);
     sw.see(c.to_captured().len());
+    sw.enc(c.encode_ref());
     if o.crypto {
         if let Some(iss) = &fx.issuer {
             sw.see(c.verify_signature(iss.subject_public_key_info()).is_ok());
@@ -980,6 +1009,7 @@ fn sweep_mft(sw: &mut Sweep, m: &Manifest, o: &Opts) {
         }
     }
     sw.see(m.to_captured().len());
+    sw.enc(m.encode_ref());
     sw.json(m);
 }
 
@@ -1042,6 +1072,7 @@ fn sweep_roa(sw: &mut Sweep, r: &Roa, o: &Opts) {
         }
     }
     sw.see(r.to_captured().len());
+    sw.enc(r.encode_ref());
     sw.json(r);
 }
 
@@ -1082,6 +1113,7 @@ fn sweep_aspa(sw: &mut Sweep, a: &Aspa, o: &Opts) {
         }
     }
     sw.see(a.to_captured().len());
+    sw.enc(a.encode_ref());
     sw.json(a);
 }
 
@@ -1099,6 +1131,7 @@ fn sweep_rta(sw: &mut Sweep, r: &Rta, o: &Opts) {
     sw.enc(c.encode_ref());
     sw.dbg(c);
     sw.see(r.to_captured().len());
+    sw.enc(r.encode_ref());
     sw.dbg(r);
     if o.crypto {
         for strict in [true, false] {
@@ -1186,6 +1219,10 @@ fn sweep_idcert(sw: &mut Sweep, c: &IdCert, o: &Opts) {
     sw.see(c.to_captured().len());
     sw.see(c.to_bytes().len());
     sw.enc(c.encode_ref());
+    {
+        let tbs: &rpki::ca::idcert::TbsIdCert = c.as_ref();
+        sw.enc(tbs.encode_ref());
+    }
     sw.json(c);
     sw.dbg(c);
     sw.see(c == c);
